@@ -271,6 +271,25 @@ func (c *Cluster) newNode(id uint64) (*Node, error) {
 	return n, nil
 }
 
+// Reopen closes the node's store and opens it again from its files (the cache is rebuilt from the WAL).
+func (n *Node) Reopen() error {
+	if err := n.Store.Close(); err != nil {
+		return err
+	}
+	s := tsdb.NewStore(filepath.Join(n.cluster.Dir, fmt.Sprintf("n%d", n.ID), "data"))
+	s.EngineOptions.IndexVersion = "inmem"
+	s.EngineOptions.Config.WALDir = filepath.Join(n.cluster.Dir, fmt.Sprintf("n%d", n.ID), "wal")
+	s.EngineOptions.WALEnabled = true
+	if err := s.Open(); err != nil {
+		return err
+	}
+	n.Store = s
+	n.Svc.TSDBStore = nodeStore{s, n}
+	n.PW.TSDBStore = s
+	n.Mapper.TSDBStore = s
+	return nil
+}
+
 // serve handles one incoming connection according to the node's fault.
 func (n *Node) serve(conn net.Conn) {
 	n.cluster.mu.Lock()
@@ -394,15 +413,23 @@ func (c *Cluster) Query(coord int, q string) (string, error) {
 	return QueryMapper(c.Nodes[coord].Mapper, q)
 }
 
-// QueryMapper runs a SELECT through a shard mapper and renders the result rows canonically.
-func QueryMapper(mapper query.ShardMapper, q string) (string, error) {
+// Row is one result series of a SELECT.
+type Row struct {
+	Name    string
+	Tags    map[string]string
+	Columns []string
+	Values  [][]interface{}
+}
+
+// QueryRows runs a SELECT through a shard mapper and returns the emitted rows.
+func QueryRows(mapper query.ShardMapper, q string) ([]Row, error) {
 	stmt, err := influxql.ParseStatement(q)
 	if err != nil {
-		return "", err
+		return nil, err
 	}
 	sel, ok := stmt.(*influxql.SelectStatement)
 	if !ok {
-		return "", fmt.Errorf("not a select: %s", q)
+		return nil, fmt.Errorf("not a select: %s", q)
 	}
 	// default database / retention policy, as the statement executor normalises them
 	influxql.WalkFunc(sel, func(n influxql.Node) {
@@ -418,19 +445,29 @@ func QueryMapper(mapper query.ShardMapper, q string) (string, error) {
 	ctx := context.Background()
 	cur, err := query.Select(ctx, sel, mapper, query.SelectOptions{})
 	if err != nil {
-		return "", err
+		return nil, err
 	}
 	defer cur.Close()
 	em := query.NewEmitter(cur, 0)
-	var out []string
+	var out []Row
 	for {
 		row, _, err := em.Emit()
 		if err != nil {
-			return strings.Join(out, "\n"), err
+			return out, err
 		}
 		if row == nil {
 			break
 		}
+		out = append(out, Row{Name: row.Name, Tags: row.Tags, Columns: row.Columns, Values: row.Values})
+	}
+	return out, nil
+}
+
+// QueryMapper runs a SELECT through a shard mapper and renders the result rows canonically.
+func QueryMapper(mapper query.ShardMapper, q string) (string, error) {
+	rows, err := QueryRows(mapper, q)
+	var out []string
+	for _, row := range rows {
 		var tags []string
 		for k, v := range row.Tags {
 			tags = append(tags, k+"="+v)
@@ -441,7 +478,7 @@ func QueryMapper(mapper query.ShardMapper, q string) (string, error) {
 			out = append(out, fmt.Sprintf("  %v", fmtVals(vals)))
 		}
 	}
-	return strings.Join(out, "\n"), nil
+	return strings.Join(out, "\n"), err
 }
 
 func fmtVals(vals []interface{}) string {
